@@ -211,6 +211,8 @@ def load_corpus():
             if not l.strip():
                 continue
             c = json.loads(l)
+            if c.get("family"):
+                continue        # entries of another half of the tie (family "latagg": gen/c13_latagg.py)
             base = c03.case_from_json(dict(prog=c["prog"], inputs=[]), "c13lat_corpus_%d" % k)
             hists = [[_step_from_json(st) for st in h] for h in c["hists"]]
             out.append(dict(id=base["id"], prog=base["prog"], hists=hists, kinds=["corpus:" + c.get("name", "")] * len(hists), note=c.get("note")))
